@@ -130,8 +130,12 @@ class MemoryStorageBackend(StorageBackend):
         )
 
     def list_functions(self) -> List[FunctionReference]:
+        # Lookups and forgets leave empty entries behind in the defaultdict: only functions
+        # that still have a memento are listed
         return [
-            FunctionReference.from_qualified_name(key) for key in self.mementos.keys()
+            FunctionReference.from_qualified_name(key)
+            for key, memento_dict in self.mementos.items()
+            if memento_dict
         ]
 
     def list_mementos(self, fn: FunctionReference, limit: int = None) -> List[Memento]:
